@@ -478,3 +478,27 @@ def specialise_defaults(fi: FunctionInfo, keep=()) -> FunctionInfo:
         for ch in ast.iter_child_nodes(n):
             ch._parent = n  # type: ignore[attr-defined]
     return twin
+
+
+def specialise_param(fi: FunctionInfo, name: str, value) -> FunctionInfo:
+    """A twin of `fi` with every read of parameter `name` replaced by the literal `value` and the normal form re-established (`if index == 0:`
+    folds away): the per-operand view of a `backward_var`.  The project is untouched."""
+    import copy as _copy
+    from ..inline import clone
+    from ..normal import renormalise_function
+    if name not in fi.params() or any(isinstance(n, ast.Name) and n.id == name and isinstance(n.ctx, (ast.Store, ast.Del)) for n in ast.walk(fi.node)):
+        return fi
+    twin = _copy.copy(fi)
+    twin.node = clone(fi.node)
+
+    class S(ast.NodeTransformer):
+        def visit_Name(self, node):
+            if isinstance(node.ctx, ast.Load) and node.id == name:
+                return ast.copy_location(ast.Constant(value=value), node)
+            return node
+    twin.node.body = [S().visit(b) for b in twin.node.body]
+    renormalise_function(twin.node)
+    for n in ast.walk(twin.node):
+        for ch in ast.iter_child_nodes(n):
+            ch._parent = n  # type: ignore[attr-defined]
+    return twin
